@@ -183,6 +183,38 @@ Section Scheme.
   Definition run := run_gen true.
   Definition run_v0 := run_gen false.
 
+  (* ---- OS threads.  A logical thread above is one JOB: the calls one entity makes while it handles one
+     request.  A worker thread of a pool (WSGI server, multi-tenant process) serves jobs of DIFFERENT
+     entities one after the other; the main thread that builds the entities may itself make calls.
+     Nothing in the anchored code is keyed by the OS thread (no threading.local, no get_ident, no
+     per-thread memo): what a worker does is what its jobs do, in order.  One schedule entry w lets
+     worker w run up to its next gate: it finishes the current job and goes on with the next one when
+     no gate is met on the way.  Entries naming a worker without unfinished job stutter. ---- *)
+  Fixpoint wseg_gen (fixed : bool) (jobs : list nat) (st : state) : state :=
+    match jobs with
+    | [] => st
+    | j :: r =>
+        match nth_error (ths st) j with
+        | Some (_, _ :: _) =>
+            let st' := step_gen fixed j st in
+            if Nat.eqb (length (trace st')) (length (trace st))
+            then wseg_gen fixed r st'        (* job j ran to its end, no gate met *)
+            else st'                         (* the worker waits at a gate inside job j *)
+        | _ => wseg_gen fixed r st           (* job done already (or no such job) *)
+        end
+    end.
+
+  Definition wstep_gen (fixed : bool) (ws : list (list nat)) (w : nat) (st : state) : state :=
+    match nth_error ws w with
+    | None => st
+    | Some jobs => wseg_gen fixed jobs st
+    end.
+
+  Definition wrun_gen (fixed : bool) (ws : list (list nat)) (wsched : list nat) (st : state) : state :=
+    fold_left (fun st w => wstep_gen fixed ws w st) wsched st.
+  Definition wrun := wrun_gen true.
+  Definition wrun_v0 := wrun_gen false.
+
   (* ---- the public entry points, compiled to instructions ---- *)
   Inductive vkey := VCert (e : nat) | VKey (k : nat) | VOwn.
 
@@ -258,3 +290,43 @@ Definition tverify (k d : nat) (p : payload) (s : tsig) : bool := tsig_eqb s (Sg
 
 (* entity -> key pair, from the list given in a case *)
 Definition kof (keys : list nat) (e : nat) : nat := nth e keys 0.
+
+(* ---- where an entity's key comes from (sigver.py security_context / SecurityContext.__init__):
+     the configuration names a key_file and a cert_file; when the entity object is built,
+       import_rsa_key_from_file(key_file)  opens and parses the file -> RSACrypto(key)   (sec_backend)
+       read_cert_from_file(cert_file)      opens and reads the file  -> my_cert          (published)
+     Both read the CONTENT the path has at that moment; neither looks at the file's mtime, size or
+     inode, neither remembers anything between calls, nothing is keyed by path or entityid.  Later
+     changes of the files do not reach an entity that exists already (RSACrypto.key and my_cert are
+     written once).  A deployment is a list of steps of the main thread:
+       DInstall p k stamp how   key pair k (key file + certificate file) is put at path p with mtime
+                                `stamp`; how = 0 overwritten in place, 1 renamed over, 2 p is a symlink that
+                                is switched to another target
+       DCreate p                an entity is built from the configuration naming path p (entities are
+                                numbered in creation order)
+       DCall j                  the main thread runs job j here (see wrun; irrelevant for the keys) ---- *)
+Inductive dstep := DInstall (p k stamp how : nat) | DCreate (p : nat) | DCall (j : nat).
+
+Definition fsys := list (nat * (nat * nat)).     (* path -> (key pair installed there, mtime); newest first *)
+
+Fixpoint fread (fs : fsys) (p : nat) : option nat :=
+  match fs with
+  | [] => None
+  | (q, (k, _)) :: r => if Nat.eqb q p then Some k else fread r p
+  end.
+
+(* per entity, in creation order: (key pair of sec_backend.key, key pair of the certificate my_cert) *)
+Fixpoint loaded (fs : fsys) (d : list dstep) : list (nat * nat) :=
+  match d with
+  | [] => []
+  | DInstall p k s _ :: r => loaded ((p, (k, s)) :: fs) r
+  | DCreate p :: r =>
+      match fread fs p (* key_file *), fread fs p (* cert_file *) with
+      | Some k, Some c => (k, c) :: loaded fs r
+      | _, _ => loaded fs r                  (* no such file: the constructor raises, no entity *)
+      end
+  | DCall _ :: r => loaded fs r
+  end.
+
+Definition deploy_keys (d : list dstep) : list nat := map fst (loaded [] d).
+Definition deploy_certs (d : list dstep) : list nat := map snd (loaded [] d).
